@@ -941,9 +941,12 @@ package gtab
 //@   return_assert next >= 0 ==> (forall i2 int :: 0 <= i2 && i2 < len(matchPos) ==> l.Input[i2][seq[matchPos[i2]].GID])
 //@   return_assert next >= 0 ==> (forall i3 int :: 1 <= i3 && i3 < len(matchPos) ==> keptG(keep, seq[matchPos[i3]].GID)) && (forall i4 int :: forall q int :: 0 <= i4 && i4 + 1 < len(matchPos) && matchPos[i4] < q && q < matchPos[i4+1] ==> !keptG(keep, seq[q].GID))
 //@   return_assert next >= 0 ==> (next < b ==> keptG(keep, seq[next].GID)) && forall q int :: matchPos[len(matchPos)-1] < q && q < next ==> !keptG(keep, seq[q].GID)
+// without a glyph filter the rule matches exactly if every input coverage set contains the glyph at its consecutive position inside [a,b)
+//@   ensures old(ctx.keep == nil) ==> ((next >= 0) == (a + len(l.Input) <= b && forall i6 int :: 0 <= i6 && i6 < len(l.Input) ==> l.Input[i6][ctx.seq[a+i6].GID]))
 //@   opt assume_make=1
 //@   modifies ctx.scratch, ctx.stack, ctx.stack[*], ctx.scratch[*], all(nested), allelems(int), allelems(*nested)
 //@   loop 0
+//@     invariant ctx.keep == nil && keep == nil ==> p == a + iter && (forall i6 int :: 0 <= i6 && i6 < len(matchPos) ==> matchPos[i6] == a + i6)
 //@     invariant stackinv(ctx) && inside(ctx, b) && len(ctx.stack) == old(len(ctx.stack)) && len(ctx.seq) == old(len(ctx.seq)) && ref(seq) == ref(ctx.seq) && off(seq) == off(ctx.seq) && len(seq) == len(ctx.seq) && b <= len(seq) && ctx.scratch == old(ctx.scratch) && keep == ctx.keep
 //@     invariant ref(matchPos) == ref(ctx.scratch) || fresh(matchPos)
 //@     invariant forall k int :: 0 <= k && k < len(ctx.stack) ==> !fresh(ctx.stack[k].InputPos)
@@ -953,6 +956,7 @@ package gtab
 //@     invariant (forall i2 int :: 0 <= i2 && i2 < len(matchPos) ==> l.Input[i2][seq[matchPos[i2]].GID])
 //@     invariant (forall i3 int :: 1 <= i3 && i3 < len(matchPos) ==> keptG(keep, seq[matchPos[i3]].GID)) && (forall i4 int :: forall q int :: 0 <= i4 && i4 + 1 < len(matchPos) && matchPos[i4] < q && q < matchPos[i4+1] ==> !keptG(keep, seq[q].GID)) && matchPos[len(matchPos)-1] == p
 //@   loop 1
+//@     invariant ctx.keep == nil && keep == nil ==> p == a + outerindex + 1
 //@     invariant a < p && p <= b && glyphsNeeded >= 0 && b <= len(seq) && len(seq) == len(ctx.seq) && ref(seq) == ref(ctx.seq) && off(seq) == off(ctx.seq) && len(ctx.seq) == old(len(ctx.seq)) && keep == ctx.keep
 //@     invariant forall k int :: 0 <= k && k < len(matchPos) ==> a <= matchPos[k] && matchPos[k] < p
 //@     invariant len(matchPos) >= 1 && forall q int :: matchPos[len(matchPos)-1] < q && q < p ==> !keptG(keep, seq[q].GID)
@@ -1047,18 +1051,26 @@ package gtab
 //@   return_assert next >= 0 ==> (forall i2 int :: 0 <= i2 && i2 < len(matchPos) ==> l.Input[i2][seq[matchPos[i2]].GID])
 //@   return_assert next >= 0 ==> (forall i3 int :: 1 <= i3 && i3 < len(matchPos) ==> keptG(keep, seq[matchPos[i3]].GID)) && (forall i4 int :: forall q int :: 0 <= i4 && i4 + 1 < len(matchPos) && matchPos[i4] < q && q < matchPos[i4+1] ==> !keptG(keep, seq[q].GID))
 //@   return_assert next >= 0 ==> (next < b ==> keptG(keep, seq[next].GID)) && forall q int :: matchPos[len(matchPos)-1] < q && q < next ==> !keptG(keep, seq[q].GID)
+// without a glyph filter (no lookup flags) the rule matches exactly if every backtrack, input and lookahead
+// coverage set contains the glyph at its consecutive position (backtrack before a, input from a inside [a,b),
+// lookahead behind the input up to the END OF THE SEQUENCE, not only up to b)
+//@   ensures old(ctx.keep == nil) ==> ((next >= 0) == ((a - len(l.Backtrack) >= 0 && forall i5 int :: 0 <= i5 && i5 < len(l.Backtrack) ==> l.Backtrack[i5][ctx.seq[a-1-i5].GID]) && (a + len(l.Input) <= b && forall i6 int :: 0 <= i6 && i6 < len(l.Input) ==> l.Input[i6][ctx.seq[a+i6].GID]) && (a + len(l.Input) + len(l.Lookahead) <= len(ctx.seq) && forall i7 int :: 0 <= i7 && i7 < len(l.Lookahead) ==> l.Lookahead[i7][ctx.seq[a+len(l.Input)+i7].GID])))
 //@   opt assume_make=1
 //@   modifies ctx.scratch, ctx.stack, ctx.stack[*], ctx.scratch[*], all(nested), allelems(int), allelems(*nested)
 //@   let C = stackinv(ctx) && inside(ctx, b) && len(ctx.stack) == old(len(ctx.stack)) && len(ctx.seq) == old(len(ctx.seq)) && ref(seq) == ref(ctx.seq) && off(seq) == off(ctx.seq) && len(seq) == len(ctx.seq) && b <= len(seq) && ctx.scratch == old(ctx.scratch) && keep == ctx.keep
 //@   let L = len(ctx.seq) == old(len(ctx.seq)) && ref(seq) == ref(ctx.seq) && off(seq) == off(ctx.seq) && len(seq) == len(ctx.seq) && b <= len(seq) && keep == ctx.keep
+//@   let NK = ctx.keep == nil && keep == nil
 //@   let NF = forall k int :: 0 <= k && k < len(ctx.stack) ==> !fresh(ctx.stack[k].InputPos)
 //@   let INC = forall k int :: 0 <= k && k + 1 < len(matchPos) ==> matchPos[k] < matchPos[k+1]
 //@   loop 0
 //@     invariant C && 0 <= p && p <= a && glyphsNeeded >= 0 && glyphsNeeded == len(l.Backtrack) - iter
+//@     invariant NK ==> p == a - iter && forall i5 int :: 0 <= i5 && i5 < iter ==> l.Backtrack[i5][seq[a-1-i5].GID]
 //@   loop 1
+//@     invariant NK ==> p == a - 1 - outerindex
 //@     invariant L && -1 <= p && p < a && glyphsNeeded >= 0
 //@     decreases p + 1
 //@   loop 2
+//@     invariant NK ==> p == a + iter && (forall i6 int :: 0 <= i6 && i6 < len(matchPos) ==> matchPos[i6] == a + i6) && (a - len(l.Backtrack) >= 0 && forall i5 int :: 0 <= i5 && i5 < len(l.Backtrack) ==> l.Backtrack[i5][seq[a-1-i5].GID])
 //@     invariant C && NF && INC && (ref(matchPos) == ref(ctx.scratch) || fresh(matchPos))
 //@     invariant a <= p && p <= b && glyphsNeeded == len(l.Input) - iter && len(matchPos) == iter && (iter == 0 ==> p == a) && (iter >= 1 ==> a < p && matchPos[0] == a)
 //@     invariant forall k int :: 0 <= k && k < len(matchPos) ==> a <= matchPos[k] && matchPos[k] < p
@@ -1066,11 +1078,13 @@ package gtab
 //@     invariant (forall i3 int :: 1 <= i3 && i3 < len(matchPos) ==> keptG(keep, seq[matchPos[i3]].GID)) && (forall i4 int :: forall q int :: 0 <= i4 && i4 + 1 < len(matchPos) && matchPos[i4] < q && q < matchPos[i4+1] ==> !keptG(keep, seq[q].GID))
 //@     invariant iter >= 1 ==> (p < b ==> keptG(keep, seq[p].GID)) && forall q int :: matchPos[len(matchPos)-1] < q && q < p ==> !keptG(keep, seq[q].GID)
 //@   loop 3
+//@     invariant NK ==> p == a + outerindex + 1
 //@     invariant len(matchPos) >= 1 && forall q int :: matchPos[len(matchPos)-1] < q && q < p ==> !keptG(keep, seq[q].GID)
 //@     invariant L && a < p && p <= b && glyphsNeeded >= 0
 //@     invariant forall k int :: 0 <= k && k < len(matchPos) ==> a <= matchPos[k] && matchPos[k] < p
 //@     decreases b - p
 //@   loop 4
+//@     invariant NK ==> p == next + iter && next == a + len(l.Input) && (forall i6 int :: 0 <= i6 && i6 < len(matchPos) ==> matchPos[i6] == a + i6) && (a - len(l.Backtrack) >= 0 && forall i5 int :: 0 <= i5 && i5 < len(l.Backtrack) ==> l.Backtrack[i5][seq[a-1-i5].GID]) && (forall i7 int :: 0 <= i7 && i7 < iter ==> l.Lookahead[i7][seq[a+len(l.Input)+i7].GID])
 //@     invariant C && NF && INC && (ref(matchPos) == ref(ctx.scratch) || fresh(matchPos))
 //@     invariant a < next && next <= b && next <= p && p <= len(seq) && glyphsNeeded == len(l.Lookahead) - iter && len(matchPos) == len(l.Input) && matchPos[0] == a
 //@     invariant forall k int :: 0 <= k && k < len(matchPos) ==> a <= matchPos[k] && matchPos[k] < next
@@ -1078,6 +1092,7 @@ package gtab
 //@     invariant (forall i3 int :: 1 <= i3 && i3 < len(matchPos) ==> keptG(keep, seq[matchPos[i3]].GID)) && (forall i4 int :: forall q int :: 0 <= i4 && i4 + 1 < len(matchPos) && matchPos[i4] < q && q < matchPos[i4+1] ==> !keptG(keep, seq[q].GID))
 //@     invariant (next < b ==> keptG(keep, seq[next].GID)) && forall q int :: matchPos[len(matchPos)-1] < q && q < next ==> !keptG(keep, seq[q].GID)
 //@   loop 5
+//@     invariant NK ==> p == next + outerindex + 1
 //@     invariant L && a < next && next <= b && next < p && p <= len(seq) && glyphsNeeded >= 0
 //@     decreases len(seq) - p
 
